@@ -1,0 +1,44 @@
+//go:build verif
+
+package airgapped
+
+// Hooks for the verification harness in /verif (compiled only with -tags verif).
+// They expose state that is otherwise unexported; they change no behaviour.
+
+import (
+	"fmt"
+
+	"github.com/corestario/kyber"
+)
+
+// VerifDealerCoefficients returns the secret coefficients of this machine's
+// dealer polynomial for the given round (constant term first).
+func (am *Machine) VerifDealerCoefficients(dkgIdentifier string) ([]kyber.Scalar, error) {
+	dkgInstance, ok := am.dkgInstances[dkgIdentifier]
+	if !ok {
+		return nil, fmt.Errorf("no dkg instance for %s", dkgIdentifier)
+	}
+	gen := dkgInstance.VerifInstance()
+	if gen == nil {
+		return nil, fmt.Errorf("dkg instance for %s is not initialised", dkgIdentifier)
+	}
+	return gen.GetDealer().PrivatePoly().Coefficients(), nil
+}
+
+// VerifHasDKGInstance tells whether the volatile DKG state of a round exists.
+func (am *Machine) VerifHasDKGInstance(dkgIdentifier string) bool {
+	_, ok := am.dkgInstances[dkgIdentifier]
+	return ok
+}
+
+// VerifSecKey returns the long-term DKG private key.
+func (am *Machine) VerifSecKey() kyber.Scalar { return am.secKey }
+
+// VerifBaseSeed returns the base seed.
+func (am *Machine) VerifBaseSeed() []byte { return append([]byte(nil), am.baseSeed...) }
+
+// VerifRawDBGet reads a raw value from the machine's database.
+func (am *Machine) VerifRawDBGet(key string) ([]byte, error) { return am.db.Get([]byte(key), nil) }
+
+// VerifCloseDB closes the database so that the directory can be reopened.
+func (am *Machine) VerifCloseDB() error { return am.db.Close() }
